@@ -78,7 +78,9 @@ class Frame:
             return self.globs[name]
         if hasattr(builtins, name):
             return getattr(builtins, name)
-        raise ProgExc(NameError, name)
+        # an unbound name is (practically) never the behaviour of the real code: it means the contract's setup / closure does not
+        # provide a variable the (possibly refactored) carrier reads -> machinery error, never a program exception / violation
+        raise Unsupported(f"name {name!r} has no value in the carrier's frame, closure or module (contract setup does not provide it: carrier changed shape?)")
 
     def store(self, name, value):
         if name in self.nonlocals:
